@@ -122,8 +122,15 @@ def run(ctx: Ctx) -> Result:
         res.count('threaded_calls', len(ids))
         if not oracle(ids):
             res.violations.append(Violation('duplicate-id', 'duplicate id from concurrent callers', {'threads': 8}))
+        for desc, ids in injected_ids():
+            res.add_case({'injected': desc})
+            res.count('injected_interleavings')
+            if not oracle(ids):
+                dup = sorted({i for i in ids if ids.count(i) > 1})[:3]
+                res.violations.append(Violation('duplicate-id', f'duplicate identifiers {dup}: {desc}', {'injected': desc}))
+                break
         # the same with the generator's integer fields turned into points where a thread gives way to the others
-        ids = threaded_ids(4, 120 if ctx.thorough else 40, ctx.rng, perturb=True)
+        ids = threaded_ids(4, 1200 if ctx.thorough else 120, ctx.rng, perturb=True)
         res.add_case({'threads': 4, 'calls': len(ids), 'perturbed': True})
         res.count('threaded_calls_perturbed', len(ids))
         if not oracle(ids):
@@ -210,18 +217,88 @@ def yielding(g):
     fields = [k for k, v in vars(g).items() if isinstance(v, int) and not isinstance(v, bool)]
     store = {k: vars(g).pop(k) for k in fields}
     ns = {}
+    tick = [0]
+
+    def nap():
+        # naps of varying length (0 .. 0.9 ms, a fixed pseudo-random sequence): the order in which callers wake up varies
+        tick[0] = (tick[0] * 1103515245 + 12345) % (1 << 31)
+        return (tick[0] >> 16) % 10 * 0.0001
     for k in fields:
         def getter(self, k=k):
+            _t.sleep(nap())           # before the read: what is read may already be another caller's update ...
             v = store[k]
-            _t.sleep(0.0002)
+            _t.sleep(nap())           # ... and after it: what was read may be stale when it is used
             return v
 
         def setter(self, v, k=k):
             store[k] = v
-            _t.sleep(0.0002)
+            _t.sleep(nap())
         ns[k] = property(getter, setter)
     g.__class__ = type(g.__class__.__name__ + 'Yielding', (g.__class__,), ns)
     return g
+
+
+def injected_ids():
+    """deterministic two-caller interleavings: a second caller's COMPLETE request (after the clock moved to the next second,
+    or within the same second) is run exactly when the first caller is just about to take the generator's lock, and
+    exactly when it has just released it — the two places where a caller that does part of its work outside the lock is
+    exposed.  The lock is found by inspection (whatever it is called) and wrapped; the second request runs on the same
+    thread, which is legitimate because the lock is not held at those two points.  Returns [(description, ids)]."""
+    out = []
+    for urn in (None, 'u'):
+        for warm in (0, 1, 3):
+            for where in ('before-acquire', 'after-release'):
+                for dt in (1, 0):
+                    state = {'t': 500.0, 'armed': False}
+                    old = event_id_mod.time
+                    event_id_mod.time = lambda: state['t']
+                    try:
+                        g = BoboGenEventIDUnique(urn) if urn is not None else BoboGenEventIDUnique()
+                        lock_names = [k for k, v in vars(g).items() if hasattr(v, 'acquire') and hasattr(v, 'release')]
+                        ids = [g.generate() for _ in range(warm)]
+                        extra = []
+
+                        def other():
+                            if state['armed']:
+                                state['armed'] = False
+                                state['t'] += dt
+                                extra.append(g.generate())
+                                extra.append(g.generate())
+
+                        class Wrapped:
+                            def __init__(self, real):
+                                self.real = real
+
+                            def __enter__(self):
+                                if where == 'before-acquire':
+                                    other()
+                                return self.real.__enter__()
+
+                            def __exit__(self, *a):
+                                r = self.real.__exit__(*a)
+                                if where == 'after-release':
+                                    other()
+                                return r
+
+                            def acquire(self, *a, **k):
+                                if where == 'before-acquire':
+                                    other()
+                                return self.real.acquire(*a, **k)
+
+                            def release(self):
+                                self.real.release()
+                                if where == 'after-release':
+                                    other()
+                        for k in lock_names:
+                            setattr(g, k, Wrapped(getattr(g, k)))
+                        state['armed'] = True
+                        first = g.generate()
+                        ids += extra + [first, g.generate()]
+                        out.append((f"urn={urn!r}, {warm} earlier requests in the second, a second caller's two requests "
+                                    f"{'one second later ' if dt else ''}{where.replace('-', ' ')} of the lock by the first", ids))
+                    finally:
+                        event_id_mod.time = old
+    return out
 
 
 def threaded_ids(nthreads, per, rng, perturb=False):
@@ -230,7 +307,7 @@ def threaded_ids(nthreads, per, rng, perturb=False):
 
     def clock():
         with lock:
-            state['t'] += rng.choice((-1, 0, 0, 0, 1))
+            state['t'] += rng.choice((-1, 0, 1, 0, 1) if perturb else (-1, 0, 0, 0, 1))    # more new seconds when perturbed
             return float(state['t'])
     old = event_id_mod.time
     event_id_mod.time = clock
@@ -280,7 +357,7 @@ def search(ctx: Ctx) -> Result:
 
 SPEC = PropSpec(
     prop='C16',
-    translators=['idgen'],
+    translators=['idgen', 'locks'],
     run=run,
     search=search,
     rule='every clock step sequence over {-2,-1,0,+1,+2} up to length 6 (quick) / 8 (thorough) exhaustively, plus seeded random '
